@@ -238,9 +238,10 @@ def relational_kdf(chk, exe, r, kind):
         # info of 64 KiB and more (a length kept in 16 bits would wrap): a 96-byte reference, three expands
         for li, il in enumerate([65536 + 5] + ([70000] if chk.thorough else [])):
             key, salt, info = r.bytes(16), r.bytes(8), r.bytes(il)
-            lines = [f"hkdf id=refL{li} len=96 key={hx(key)} salt={hx(salt)} info={hx(info)}",
+            reflen, parts = (96, [10, 30, 56]) if chk.thorough else (64, [10, 30, 24])     # interpreting one block costs about a minute
+            lines = [f"hkdf id=refL{li} len={reflen} key={hx(key)} salt={hx(salt)} info={hx(info)}",
                      f"hkextract id=ptL{li}x obj=0 key={hx(key)} salt={hx(salt)}"] + \
-                    [f"hkexpand id=ptL{li}e{j} obj=0 info={hx(info)} len={n}" for j, n in enumerate([10, 30, 56])]
+                    [f"hkexpand id=ptL{li}e{j} obj=0 info={hx(info)} len={n}" for j, n in enumerate(parts)]
             ev, _ = run_driver(exe, [f"reset id=relL{li}"] + lines, timeout=900)
             ref = next((e for e in ev if e.get('id') == f"refL{li}"), None)
             if ref is None or 'out' not in ref:
